@@ -16,7 +16,11 @@ Inductive teq : Tracer -> Tracer -> Prop :=
 | teq_struct n s s' fs fs' :
     (forall k, fget2 k fs = None <-> fget2 k fs' = None) ->
     (forall k t l t' l', fget2 k fs = Some (t, l) -> fget2 k fs' = Some (t', l') -> teq t t') ->
-    teq (TStruct n false s fs) (TStruct n false s' fs').
+    teq (TStruct n false s fs) (TStruct n false s' fs')
+| teq_mstruct n s s' fs fs' :
+    (forall k, fget2 k fs = None <-> fget2 k fs' = None) ->
+    (forall k t l t' l', fget2 k fs = Some (t, l) -> fget2 k fs' = Some (t', l') -> teq t t') ->
+    teq (TStruct n true s fs) (TStruct n true s' fs').
 
 Lemma teq_mark t t' : teq t t' -> teq (mark_nullable t) (mark_nullable t').
 Proof. intros H. destruct H; cbn [mark_nullable]; constructor; assumption. Qed.
@@ -25,9 +29,9 @@ Proof. destruct b; cbn [mk]; [apply teq_mark|tauto]. Qed.
 
 (* ---- wrappers and nulls ---- *)
 Fixpoint core (v : Value) : option Value :=
-  match v with VNone => None | VSome x | VNewtypeStruct x => core x | _ => Some v end.
+  match v with VNone | VUnit | VUnitStruct => None | VSome x | VNewtypeStruct x => core x | _ => Some v end.
 Fixpoint nullish (v : Value) : bool :=
-  match v with VNone | VSome _ => true | VNewtypeStruct x => nullish x | _ => false end.
+  match v with VNone | VUnit | VUnitStruct | VSome _ => true | VNewtypeStruct x => nullish x | _ => false end.
 Definition cores (vs : list Value) : list Value := flat_map (fun v => match core v with Some c => [c] | None => [] end) vs.
 Definition omk (b : bool) (r : Outcome Tracer) : Outcome Tracer := if b then omark r else r.
 
@@ -41,12 +45,106 @@ Proof. destruct b; reflexivity. Qed.
 Lemma core_none_nullish v : core v = None -> nullish v = true.
 Proof. induction v; cbn [core nullish]; try discriminate; auto. Qed.
 
-Lemma trace_core o d : forall v t,
-  trace o d v t = omk (nullish v) (match core v with Some c => trace o d c t | None => Ok t end).
+(* a value with a core is its core plus (possibly) a null *)
+Lemma trace_core_some o d : forall v cc t, core v = Some cc -> trace o d v t = omk (nullish v) (trace o d cc t).
 Proof.
-  intros v. induction v; intros t; try reflexivity.
-  - cbn [trace core nullish omk]. rewrite trace_mark, IHv. destruct (nullish v); cbn [omk]; [apply omark_idem|reflexivity].
-  - cbn [trace core nullish]. apply IHv.
+  intros v. induction v; intros cc t Hc; cbn [core] in Hc; try discriminate; try (injection Hc as <-; reflexivity).
+  - cbn [trace nullish omk]. rewrite trace_mark, (IHv cc t Hc). destruct (nullish v); cbn [omk]; [apply omark_idem|reflexivity].
+  - cbn [trace nullish]. apply (IHv cc t Hc).
+Qed.
+
+(* null-like values (None, unit, unit struct, wrapped or not) only mark a position that already has a shape ... *)
+Lemma unit_on_settled o t : upgradable t = false -> ensure_prim o PNull t = Ok (mark_nullable t).
+Proof.
+  destruct t as [n|n p|n i|n k v|n m s fs|n fs|n vs]; cbn [upgradable ensure_prim]; try discriminate; try reflexivity.
+  destruct p; try discriminate; intros _; reflexivity.
+Qed.
+Lemma nulllike_on_settled o d : forall v t, core v = None -> upgradable t = false -> trace o d v t = Ok (mark_nullable t).
+Proof.
+  intros v. induction v; intros t Hc Hu; cbn [core] in Hc; try discriminate; cbn [trace].
+  - reflexivity.
+  - rewrite (IHv (mark_nullable t) Hc); [rewrite mark_idem; reflexivity|rewrite upgradable_mark; exact Hu].
+  - apply (unit_on_settled o t Hu).
+  - apply (unit_on_settled o t Hu).
+  - apply (IHv t Hc Hu).
+Qed.
+
+(* ... and keep a position that has no shape yet shapeless and nullable *)
+Definition ustate (t : Tracer) : bool := match t with TUnknown _ => true | TPrim true PNull => true | _ => false end.
+Lemma ustate_mark t : ustate t = true -> ustate (mark_nullable t) = true.
+Proof. destruct t as [n|[] []| | | | |]; cbn; try discriminate; reflexivity. Qed.
+Lemma nulllike_on_ustate o d : forall v t, core v = None -> ustate t = true ->
+  exists t', trace o d v t = Ok t' /\ ustate t' = true /\ t_nullable t' = true.
+Proof.
+  intros v. induction v; intros t Hc Hu; cbn [core] in Hc; try discriminate; cbn [trace].
+  - exists (mark_nullable t). split; [reflexivity|]. split; [apply ustate_mark, Hu|apply nullable_mark].
+  - destruct (IHv (mark_nullable t) Hc (ustate_mark t Hu)) as (t' & E & H1 & H2). exists t'. repeat split; assumption.
+  - destruct t as [n|[] []| | | | |]; cbn in Hu; try discriminate; cbn [ensure_prim pt_eqb]; [rewrite orb_true_r|unfold coerce, coerce_core; cbn [pt_eqb]]; eexists; repeat split.
+  - destruct t as [n|[] []| | | | |]; cbn in Hu; try discriminate; cbn [ensure_prim pt_eqb]; [rewrite orb_true_r|unfold coerce, coerce_core; cbn [pt_eqb]]; eexists; repeat split.
+  - apply (IHv t Hc Hu).
+Qed.
+
+(* containers *)
+Definition is_container (v : Value) : bool := match v with VSeq _ | VStruct _ | VMap _ => true | _ => false end.
+Lemma container_on_ustate o d c u : is_container c = true -> ustate u = true -> trace o d c u = omk (t_nullable u) (trace o d c (TUnknown false)).
+Proof.
+  intros Hc Hu. assert (E : trace o d c u = trace o d c (TUnknown (t_nullable u))).
+  { destruct u as [n|[] []| | | | |]; cbn in Hu; try discriminate; [reflexivity|]. destruct c; try discriminate Hc; cbn [trace t_nullable];
+      unfold ensure_list, ensure_struct, ensure_map; reflexivity. }
+  rewrite E. destruct (t_nullable u); cbn [omk]; [|reflexivity]. change (TUnknown true) with (mark_nullable (TUnknown false)). apply trace_mark.
+Qed.
+Lemma complex_mark t : is_complex (mark_nullable t) = is_complex t.
+Proof. destruct t; reflexivity. Qed.
+Lemma complex_settled t : is_complex t = true -> upgradable t = false.
+Proof. destruct t as [n|n []| | | | |]; cbn; congruence. Qed.
+
+(* a position that has a shape keeps it *)
+Lemma keep_complex o : forall v d t t', is_complex t = true -> trace o d v t = Ok t' -> is_complex t' = true.
+Proof.
+  intros v. induction v using Value_ind'; intros d t t' Hl Htr;
+    try (cbn [trace] in Htr; unfold ensure_prim in Htr; destruct t as [n0|n0 prev|n0 it|n0 kt vt|n0 m0 s0 fs0|n0 fs0|n0 vs0]; try discriminate Hl;
+         repeat match type of Htr with
+                | (if ?c then _ else _) = _ => destruct c
+                end; try discriminate; injection Htr as <-; reflexivity).
+  - cbn [trace] in Htr. apply (IHv d (mark_nullable t) t'); [rewrite complex_mark; exact Hl|exact Htr].
+  - cbn [trace] in Htr. apply (IHv d t t' Hl Htr).
+  - rewrite trace_seq_eq in Htr. apply bind_ok in Htr as (t0 & _ & Htr). destruct t0; try discriminate. apply bind_ok in Htr as (it' & _ & Htr). injection Htr as <-. reflexivity.
+  - cbn [trace] in Htr. apply bind_ok in Htr as (t0 & _ & Htr). destruct t0; try discriminate. apply bind_ok in Htr as (x & _ & Htr). injection Htr as <-. reflexivity.
+  - cbn [trace] in Htr. apply bind_ok in Htr as (t0 & _ & Htr). destruct t0; try discriminate. apply bind_ok in Htr as (x & _ & Htr). injection Htr as <-. reflexivity.
+  - cbn [trace] in Htr. destruct (o_map_as_struct o); apply bind_ok in Htr as (t0 & _ & Htr); destruct t0; try discriminate; apply bind_ok in Htr as (x & _ & Htr); injection Htr as <-; reflexivity.
+  - rewrite trace_struct_eq in Htr. apply bind_ok in Htr as (t0 & _ & Htr). destruct t0; try discriminate. apply bind_ok in Htr as (x & _ & Htr). injection Htr as <-. reflexivity.
+  - cbn [trace] in Htr. apply bind_ok in Htr as (t0 & _ & Htr). destruct t0; try discriminate.
+    repeat match type of Htr with
+           | (if ?c then _ else _) = _ => destruct c
+           | match ?c with _ => _ end = _ => destruct c as [[? ?]|]
+           | bind _ _ = Ok _ => apply bind_ok in Htr as (? & _ & Htr)
+           end; try discriminate; injection Htr as <-; reflexivity.
+  - cbn [trace] in Htr. apply bind_ok in Htr as (t0 & _ & Htr). destruct t0; try discriminate.
+    repeat match type of Htr with
+           | (if ?c then _ else _) = _ => destruct c
+           | match ?c with _ => _ end = _ => destruct c as [[? ?]|]
+           | bind _ _ = Ok _ => apply bind_ok in Htr as (? & _ & Htr)
+           end; try discriminate; injection Htr as <-; reflexivity.
+  - cbn [trace] in Htr. apply bind_ok in Htr as (t0 & _ & Htr). destruct t0; try discriminate.
+    repeat match type of Htr with
+           | (if ?c then _ else _) = _ => destruct c
+           | match ?c with _ => _ end = _ => destruct c as [[? ?]|]
+           | bind _ _ = Ok _ => apply bind_ok in Htr as (? & _ & Htr)
+           end; try discriminate; injection Htr as <-; reflexivity.
+  - cbn [trace] in Htr. apply bind_ok in Htr as (t0 & _ & Htr). destruct t0; try discriminate.
+    repeat match type of Htr with
+           | (if ?c then _ else _) = _ => destruct c
+           | match ?c with _ => _ end = _ => destruct c as [[? ?]|]
+           | bind _ _ = Ok _ => apply bind_ok in Htr as (? & _ & Htr)
+           end; try discriminate; injection Htr as <-; reflexivity.
+Qed.
+
+Lemma container_result_complex o d c t1 : is_container c = true -> trace o d c (TUnknown false) = Ok t1 -> is_complex t1 = true.
+Proof.
+  intros Hc H. destruct c; try discriminate Hc.
+  - rewrite trace_seq_eq in H. apply bind_ok in H as (t0 & _ & H). destruct t0; try discriminate. apply bind_ok in H as (x & _ & H). injection H as <-. reflexivity.
+  - cbn [trace] in H. destruct (o_map_as_struct o); apply bind_ok in H as (t0 & _ & H); destruct t0; try discriminate; apply bind_ok in H as (x & _ & H); injection H as <-; reflexivity.
+  - rewrite trace_struct_eq in H. apply bind_ok in H as (t0 & _ & H). destruct t0; try discriminate. apply bind_ok in H as (x & _ & H). injection H as <-. reflexivity.
 Qed.
 
 Lemma ts_cons o d v r t : trace_seq' o d (v :: r) (Ok t) = trace_seq' o d r (trace o d v t).
@@ -55,16 +153,51 @@ Lemma ts_mk o d r b t1 : trace_seq' o d r (Ok (mk b t1)) = omk b (trace_seq' o d
 Proof. destruct b; [apply fold_mark|reflexivity]. Qed.
 Lemma omk_err b : omk b Err = Err. Proof. destruct b; reflexivity. Qed.
 Lemma omk_panic b p : omk b (Panic p) = Panic p. Proof. destruct b; reflexivity. Qed.
+Lemma complex_mk b t : is_complex (mk b t) = is_complex t.
+Proof. destruct b; cbn [mk]; [apply complex_mark|reflexivity]. Qed.
 
-Lemma strip o d : forall vs t, trace_seq' o d vs (Ok t) = omk (existsb nullish vs) (trace_seq' o d (cores vs) (Ok t)).
+(* stripping nulls and wrappers from a collection traced into a position that has a shape *)
+Lemma strip_settled o d : forall vs t, is_complex t = true ->
+  trace_seq' o d vs (Ok t) = omk (existsb nullish vs) (trace_seq' o d (cores vs) (Ok t)).
 Proof.
-  induction vs as [|v r IH]; intros t; [reflexivity|]. rewrite ts_cons, trace_core. cbn [existsb]. unfold cores. cbn [flat_map]. fold (cores r).
+  induction vs as [|v r IH]; intros t Hc; [reflexivity|]. rewrite ts_cons. cbn [existsb]. unfold cores. cbn [flat_map]. fold (cores r).
   destruct (core v) as [c|] eqn:Ec.
-  - cbn [app]. rewrite ts_cons. destruct (trace o d c t) as [t1| |p].
-    + rewrite omk_ok, ts_mk, IH, omk_omk. reflexivity.
+  - rewrite (trace_core_some o d v c t Ec). cbn [app]. rewrite ts_cons. destruct (trace o d c t) as [t1| |p] eqn:Et.
+    + rewrite omk_ok, ts_mk, (IH t1 (keep_complex o c d t t1 Hc Et)), omk_omk. reflexivity.
     + rewrite omk_err, !fold_err, omk_err. reflexivity.
     + rewrite omk_panic, !fold_panic, omk_panic. reflexivity.
-  - rewrite (core_none_nullish v Ec). cbn [app orb]. rewrite omk_ok, ts_mk, IH, omk_omk. reflexivity.
+  - rewrite (nulllike_on_settled o d v t Ec (complex_settled t Hc)), (core_none_nullish v Ec). cbn [app orb].
+    change (mark_nullable t) with (mk true t). rewrite ts_mk, (IH t Hc), omk_omk. reflexivity.
+Qed.
+
+(* ... and into a position that has none yet, when the collection contains a container *)
+Lemma strip_unsettled o d : forall vs u, ustate u = true -> Forall (fun c => is_container c = true) (cores vs) -> cores vs <> [] ->
+  trace_seq' o d vs (Ok u) = omk (t_nullable u || existsb nullish vs) (trace_seq' o d (cores vs) (Ok (TUnknown false))).
+Proof.
+  induction vs as [|v r IH]; intros u Hu HF Hne; [cbn in Hne; congruence|]. rewrite ts_cons. cbn [existsb]. unfold cores in *. cbn [flat_map] in *. fold (cores r) in *.
+  destruct (core v) as [c|] eqn:Ec.
+  - cbn [app] in *. rewrite (trace_core_some o d v c u Ec), (container_on_ustate o d c u (Forall_inv HF) Hu), omk_omk, ts_cons.
+    destruct (trace o d c (TUnknown false)) as [t1| |p] eqn:Et.
+    + rewrite omk_ok, ts_mk, (strip_settled o d r t1 (container_result_complex o d c t1 (Forall_inv HF) Et)), omk_omk.
+      f_equal. destruct (nullish v), (t_nullable u), (existsb nullish r); reflexivity.
+    + rewrite omk_err, !fold_err, omk_err. reflexivity.
+    + rewrite omk_panic, !fold_panic, omk_panic. reflexivity.
+  - cbn [app] in *. destruct (nulllike_on_ustate o d v u Ec Hu) as (u' & E & Hu' & Hn'). rewrite E, (IH u' Hu' HF Hne), Hn', (core_none_nullish v Ec).
+    rewrite !orb_true_r. reflexivity.
+Qed.
+
+(* collections of null-like values are leaf collections *)
+Lemma core_none_atoms o : forall v, core v = None -> exists a, atoms o v = Some a.
+Proof.
+  induction v; cbn [core atoms]; intros H; try discriminate; try (eexists; reflexivity).
+  - destruct (IHv H) as (a & ->). eexists; reflexivity.
+  - apply (IHv H).
+Qed.
+Lemma cores_nil_atoms o : forall vs, cores vs = [] -> exists l, all_atoms o vs = Some l.
+Proof.
+  induction vs as [|v r IH]; intros H; [exists []; reflexivity|]. unfold cores in H. cbn [flat_map] in H. fold (cores r) in H.
+  destruct (core v) as [c|] eqn:Ec; [discriminate|]. cbn [app] in H. destruct (core_none_atoms o v Ec) as (a & Ha). destruct (IH H) as (l & Hl).
+  exists (a ++ l). cbn [all_atoms]. rewrite Ha, Hl. reflexivity.
 Qed.
 
 (* ---- sequences: the item tracer sees the elements of all samples, one after the other ---- *)
@@ -92,6 +225,80 @@ Proof.
   cbn [map] in H. rewrite ts_cons, E, <- ts_cons in H. apply (seq_from_list o d (l :: r) n0 (TUnknown false) t H).
 Qed.
 
+(* ---- records presented as maps with string keys (JSON objects), when maps are traced as structs ---- *)
+Definition strkeys (fa : list (bytes * Value)) : list (Value * Value) := map (fun kx : bytes * Value => (VStr (fst kx), snd kx)) fa.
+Definition fmode (t : Tracer) : Tracer := match t with TStruct n _ s fs => TStruct n true s fs | _ => t end.
+Definition omode (r : Outcome Tracer) : Outcome Tracer := match r with Ok t => Ok (fmode t) | Err => Err | Panic p => Panic p end.
+
+Lemma mfields_strkeys tr d seen : forall fa acc, mfields tr d seen (strkeys fa) acc = sfields tr d seen fa acc.
+Proof.
+  induction fa as [|[k x] r IH]; intros acc; [reflexivity|]. cbn [strkeys map mfields sfields fst snd]. fold (strkeys r).
+  destruct (struct_field (tr (S d + count_dots k) x) k seen acc); cbn [bind]; [apply IH|reflexivity|reflexivity].
+Qed.
+
+Lemma trace_map_is_struct o d fa t : o_map_as_struct o = true -> trace o d (VMap (strkeys fa)) t = omode (trace o d (VStruct fa) t).
+Proof.
+  intros Hm. rewrite (trace_map_struct_eq o d _ t Hm), trace_struct_eq. unfold ensure_struct. destruct (Nat.leb max_depth d); [reflexivity|].
+  destruct (upgradable t); cbn [bind].
+  - rewrite mfields_strkeys. destruct (sfields (trace o) d 0 fa []); reflexivity.
+  - destruct t as [| | | |n m s fs| |]; try reflexivity. cbn [bind]. rewrite mfields_strkeys, orb_true_r, orb_false_r.
+    destruct (sfields (trace o) d s fa fs); reflexivity.
+Qed.
+
+Lemma fmode_mark t : fmode (mark_nullable t) = mark_nullable (fmode t).
+Proof. destruct t; reflexivity. Qed.
+
+Lemma trace_fmode o : forall v dd nn mm sn ffs, trace o dd v (fmode (TStruct nn mm sn ffs)) = omode (trace o dd v (TStruct nn mm sn ffs)).
+Proof.
+  intros v. induction v using Value_ind'; intros dd nn mm sn ffs; cbn [fmode];
+    try (cbn [trace ensure_prim]; match goal with |- (if ?c then _ else _) = _ => destruct c; reflexivity end).
+  - reflexivity.
+  - cbn [trace mark_nullable]. apply (IHv dd true mm sn ffs).
+  - cbn [trace]. apply (IHv dd nn mm sn ffs).
+  - cbn [trace]. unfold ensure_list. destruct (Nat.leb max_depth dd); reflexivity.
+  - cbn [trace]. unfold ensure_tuple. destruct (Nat.leb max_depth dd); reflexivity.
+  - cbn [trace]. unfold ensure_tuple. destruct (Nat.leb max_depth dd); reflexivity.
+  - destruct (o_map_as_struct o) eqn:Em.
+    + rewrite !(trace_map_struct_eq o dd kvs _ Em). unfold ensure_struct. destruct (Nat.leb max_depth dd); [reflexivity|]. cbn [upgradable bind]. rewrite !orb_true_r.
+      destruct (mfields (trace o) dd sn kvs ffs); reflexivity.
+    + cbn [trace]. rewrite Em. unfold ensure_map. destruct (Nat.leb max_depth dd); reflexivity.
+  - rewrite !trace_struct_eq. unfold ensure_struct. destruct (Nat.leb max_depth dd); [reflexivity|]. cbn [upgradable bind]. rewrite !orb_false_r.
+    destruct (sfields (trace o) dd sn fs ffs); reflexivity.
+  - cbn [trace]. unfold ensure_union. destruct (Nat.leb max_depth dd); reflexivity.
+  - cbn [trace]. unfold ensure_union. destruct (Nat.leb max_depth dd); reflexivity.
+  - cbn [trace]. unfold ensure_union. destruct (Nat.leb max_depth dd); reflexivity.
+  - cbn [trace]. unfold ensure_union. destruct (Nat.leb max_depth dd); reflexivity.
+Qed.
+
+Lemma struct_stays o d fa n m s fs t' : trace o d (VStruct fa) (TStruct n m s fs) = Ok t' -> exists m' s' fs', t' = TStruct n m' s' fs'.
+Proof.
+  rewrite trace_struct_eq. unfold ensure_struct. destruct (Nat.leb max_depth d); [discriminate|]. cbn [upgradable bind].
+  destruct (sfields (trace o) d s fa fs); cbn [bind]; try discriminate. intros H. injection H as <-. eauto.
+Qed.
+
+Lemma maps_from_struct o d : o_map_as_struct o = true -> forall SS n m s fs,
+  trace_seq' o d (map (fun fa => VMap (strkeys fa)) SS) (Ok (fmode (TStruct n m s fs))) = omode (trace_seq' o d (map VStruct SS) (Ok (TStruct n m s fs))).
+Proof.
+  intros Hm. induction SS as [|fa r IH]; intros n m s fs; [reflexivity|]. cbn [map]. rewrite !ts_cons, (trace_map_is_struct o d fa _ Hm), (trace_fmode o (VStruct fa) d n m s fs).
+  destruct (trace o d (VStruct fa) (TStruct n m s fs)) as [t1| |p] eqn:E; cbn [omode].
+  - destruct (struct_stays o d fa n m s fs t1 E) as (m' & s' & fs' & ->). cbn [fmode]. change (TStruct n true s' fs') with (fmode (TStruct n m' s' fs')). apply IH.
+  - rewrite !fold_err. reflexivity.
+  - rewrite !fold_panic. reflexivity.
+Qed.
+
+Lemma maps_collection o d SS : o_map_as_struct o = true -> SS <> [] ->
+  trace_seq' o d (map (fun fa => VMap (strkeys fa)) SS) (Ok (TUnknown false)) = omode (trace_seq' o d (map VStruct SS) (Ok (TUnknown false))).
+Proof.
+  intros Hm Hne. destruct SS as [|fa r]; [congruence|]. cbn [map]. rewrite !ts_cons, (trace_map_is_struct o d fa _ Hm).
+  destruct (trace o d (VStruct fa) (TUnknown false)) as [t1| |p] eqn:E; cbn [omode].
+  - assert (exists n m s fs, t1 = TStruct n m s fs) as (n & m & s & fs & ->).
+    { rewrite trace_struct_eq in E. unfold ensure_struct in E. destruct (Nat.leb max_depth d); [discriminate|]. cbn [upgradable bind] in E.
+      destruct (sfields (trace o) d 0 fa []); cbn [bind] in E; try discriminate. injection E as <-. eauto. }
+    apply (maps_from_struct o d Hm r n m s fs).
+  - rewrite !fold_err. reflexivity.
+  - rewrite !fold_panic. reflexivity.
+Qed.
+
 (* ---- the class of collections: homogeneous nested data ---- *)
 Section Order.
   Variable o : Opts.
@@ -102,7 +309,9 @@ Section Order.
     | 0 => False
     | S n' =>
       (exists ls, cores vs = map VSeq ls /\ Hom n' (concat ls)) \/
-      (exists SS, cores vs = map VStruct SS /\ Forall (fun fa => NoDup (map fst fa)) SS /\ forall k, Hom n' (vals k SS))
+      (exists SS, cores vs = map VStruct SS /\ Forall (fun fa => NoDup (map fst fa)) SS /\ forall k, Hom n' (vals k SS)) \/
+      (o_map_as_struct o = true /\
+       exists SS, cores vs = map (fun fa => VMap (strkeys fa)) SS /\ Forall (fun fa => NoDup (map fst fa)) SS /\ forall k, Hom n' (vals k SS))
     end.
 
   Lemma existsb_perm {A} (f : A -> bool) l l' : Permutation l l' -> existsb f l = existsb f l'.
@@ -132,46 +341,89 @@ Section Order.
     - injection Hr as <-. constructor.
   Qed.
 
+  Lemma leaf_case d vs vs' l t t' : all_atoms o vs = Some l -> Permutation vs vs' ->
+    trace_seq' o d vs (Ok (TUnknown false)) = Ok t -> trace_seq' o d vs' (Ok (TUnknown false)) = Ok t' -> teq t t'.
+  Proof.
+    intros Hl Hp H1 H2. rewrite trace_seq_same in H1, H2. rewrite <- (leaf_perm o d vs vs' l t t' Hl Hp H1 H2). apply (leaf_result_teq d vs l t Hl H1).
+  Qed.
+
+  Lemma strip0 d vs : Forall (fun c => is_container c = true) (cores vs) -> cores vs <> [] ->
+    trace_seq' o d vs (Ok (TUnknown false)) = omk (existsb nullish vs) (trace_seq' o d (cores vs) (Ok (TUnknown false))).
+  Proof. intros HF Hne. apply (strip_unsettled o d vs (TUnknown false) eq_refl HF Hne). Qed.
+
+  Lemma containers_map {A} (f : A -> Value) l : (forall a, is_container (f a) = true) -> Forall (fun c => is_container c = true) (map f l).
+  Proof. intros H. apply Forall_map. apply Forall_forall. intros a _. apply H. Qed.
+
+  Lemma omk_ok_inv b r t : omk b r = Ok t -> exists u, r = Ok u /\ t = mk b u.
+  Proof. destruct r as [u| |p]; [rewrite omk_ok; intros H; injection H as <-; eauto|rewrite omk_err; discriminate|rewrite omk_panic; discriminate]. Qed.
+
   (* THE THEOREM: the same samples in any order give the same tracer, up to field order and counters *)
   Theorem nested_order_independent : forall n d vs vs' t t',
     Hom n vs -> Permutation vs vs' ->
     trace_seq' o d vs (Ok (TUnknown false)) = Ok t -> trace_seq' o d vs' (Ok (TUnknown false)) = Ok t' -> teq t t'.
   Proof.
     induction n as [|n IH]; intros d vs vs' t t' Hh Hp H1 H2.
-    - destruct Hh as [(l & Hl)|[]]. rewrite trace_seq_same in H1, H2. rewrite <- (leaf_perm o d vs vs' l t t' Hl Hp H1 H2).
-      apply (leaf_result_teq d vs l t Hl H1).
-    - destruct Hh as [(l & Hl)|[(ls & Hc & Hh)|(SS & Hc & Hnd & Hh)]].
-      + apply (IH d vs vs' t t'); [destruct n; left; exists l; exact Hl|exact Hp|exact H1|exact H2].
-      + rewrite strip in H1, H2. rewrite <- (existsb_perm nullish vs vs' Hp) in H2. pose proof (cores_perm vs vs' Hp) as Hcp. rewrite Hc in Hcp, H1.
-        destruct (Permutation_map_inv _ _ (Permutation_sym Hcp)) as (ls' & Hc' & Hpl). rewrite Hc' in H2.
+    - destruct Hh as [(l & Hl)|[]]. apply (leaf_case d vs vs' l t t' Hl Hp H1 H2).
+    - pose proof (cores_perm vs vs' Hp) as Hcp. pose proof (existsb_perm nullish vs vs' Hp) as Hnp.
+      destruct Hh as [(l & Hl)|[(ls & Hc & Hh)|[(SS & Hc & Hnd & Hh)|(Hm & SS & Hc & Hnd & Hh)]]].
+      + apply (leaf_case d vs vs' l t t' Hl Hp H1 H2).
+      + (* sequences *)
+        rewrite Hc in Hcp. destruct (Permutation_map_inv _ _ (Permutation_sym Hcp)) as (ls' & Hc' & Hpl).
         destruct ls as [|l0 r0].
-        * apply Permutation_nil in Hpl. subst ls'. cbn [map trace_seq' fold_left] in H1, H2. rewrite omk_ok in H1, H2. injection H1 as <-. injection H2 as <-. apply teq_mk. constructor.
-        * assert (Hne' : ls' <> []) by (intros ->; apply Permutation_sym, Permutation_nil in Hpl; discriminate).
-          destruct (trace_seq' o d (map VSeq (l0 :: r0)) (Ok (TUnknown false))) as [u| |p] eqn:E1; try (destruct (existsb nullish vs); discriminate).
-          destruct (trace_seq' o d (map VSeq ls') (Ok (TUnknown false))) as [u'| |p] eqn:E2; try (destruct (existsb nullish vs); discriminate).
-          rewrite omk_ok in H1, H2. injection H1 as <-. injection H2 as <-. apply teq_mk.
-          destruct (seq_projection o d (l0 :: r0) false u ltac:(discriminate) E1) as (it & -> & Hi).
-          destruct (seq_projection o d ls' false u' Hne' E2) as (it' & -> & Hi').
-          constructor. apply (IH (S d) (concat (l0 :: r0)) (concat ls') it it' Hh (concat_perm _ _ Hpl) Hi Hi').
-      + rewrite strip in H1, H2. rewrite <- (existsb_perm nullish vs vs' Hp) in H2. pose proof (cores_perm vs vs' Hp) as Hcp. rewrite Hc in Hcp, H1.
-        destruct (Permutation_map_inv _ _ (Permutation_sym Hcp)) as (SS' & Hc' & Hpl). rewrite Hc' in H2.
+        { destruct (cores_nil_atoms o vs Hc) as (l & Hl). apply (leaf_case d vs vs' l t t' Hl Hp H1 H2). }
+        assert (Hne' : ls' <> []) by (intros ->; apply Permutation_sym, Permutation_nil in Hpl; discriminate).
+        rewrite (strip0 d vs) in H1 by (rewrite Hc; first [apply containers_map; reflexivity|discriminate]).
+        rewrite (strip0 d vs') in H2 by (rewrite Hc'; first [apply containers_map; reflexivity|destruct ls'; [congruence|discriminate]]).
+        rewrite Hc in H1. rewrite Hc', <- Hnp in H2.
+        destruct (omk_ok_inv _ _ _ H1) as (u & E1 & ->). destruct (omk_ok_inv _ _ _ H2) as (u' & E2 & ->). apply teq_mk.
+        destruct (seq_projection o d (l0 :: r0) false u ltac:(discriminate) E1) as (it & -> & Hi).
+        destruct (seq_projection o d ls' false u' Hne' E2) as (it' & -> & Hi').
+        constructor. apply (IH (S d) (concat (l0 :: r0)) (concat ls') it it' Hh (concat_perm _ _ Hpl) Hi Hi').
+      + (* records *)
+        rewrite Hc in Hcp. destruct (Permutation_map_inv _ _ (Permutation_sym Hcp)) as (SS' & Hc' & Hpl).
         assert (Hnd' : Forall (fun fa => NoDup (map fst fa)) SS') by (rewrite Forall_forall in *; intros fa Hin; apply Hnd, (Permutation_in _ (Permutation_sym Hpl) Hin)).
         destruct SS as [|fa0 r0].
-        * apply Permutation_nil in Hpl. subst SS'. cbn [map trace_seq' fold_left] in H1, H2. rewrite omk_ok in H1, H2. injection H1 as <-. injection H2 as <-. apply teq_mk. constructor.
-        * assert (Hne' : SS' <> []) by (intros ->; apply Permutation_sym, Permutation_nil in Hpl; discriminate).
-          destruct (trace_seq' o d (map VStruct (fa0 :: r0)) (Ok (TUnknown false))) as [u| |p] eqn:E1; try (destruct (existsb nullish vs); discriminate).
-          destruct (trace_seq' o d (map VStruct SS') (Ok (TUnknown false))) as [u'| |p] eqn:E2; try (destruct (existsb nullish vs); discriminate).
-          rewrite omk_ok in H1, H2. injection H1 as <-. injection H2 as <-. apply teq_mk.
-          destruct (record_projection o d (fa0 :: r0) false u ltac:(discriminate) Hnd E1) as (fs1 & -> & P1).
-          destruct (record_projection o d SS' false u' Hne' Hnd' E2) as (fs2 & -> & P2).
-          apply teq_struct.
-          -- intros k. specialize (P1 k). specialize (P2 k). pose proof (vals_perm k _ _ Hpl) as Hvp.
-             destruct (fget2 k fs1) as [[t1 l1]|], (fget2 k fs2) as [[t2 l2]|]; split; intros Hx; try discriminate; try reflexivity.
-             ++ destruct P1 as (Hne & _). rewrite P2 in Hvp. apply Permutation_sym, Permutation_nil in Hvp. contradiction.
-             ++ destruct P2 as (Hne & _). rewrite P1 in Hvp. apply Permutation_nil in Hvp. contradiction.
-          -- intros k t1 l1 t2 l2 G1 G2. specialize (P1 k). specialize (P2 k). rewrite G1 in P1. rewrite G2 in P2.
-             destruct P1 as (_ & T1 & R1 & ->). destruct P2 as (_ & T2 & R2 & ->).
-             rewrite (missing_perm k _ _ Hpl). apply teq_mk.
-             apply (IH _ (vals k (fa0 :: r0)) (vals k SS') T1 T2 (Hh k) (vals_perm k _ _ Hpl) R1 R2).
+        { destruct (cores_nil_atoms o vs Hc) as (l & Hl). apply (leaf_case d vs vs' l t t' Hl Hp H1 H2). }
+        assert (Hne' : SS' <> []) by (intros ->; apply Permutation_sym, Permutation_nil in Hpl; discriminate).
+        rewrite (strip0 d vs) in H1 by (rewrite Hc; first [apply containers_map; reflexivity|discriminate]).
+        rewrite (strip0 d vs') in H2 by (rewrite Hc'; first [apply containers_map; reflexivity|destruct SS'; [congruence|discriminate]]).
+        rewrite Hc in H1. rewrite Hc', <- Hnp in H2.
+        destruct (omk_ok_inv _ _ _ H1) as (u & E1 & ->). destruct (omk_ok_inv _ _ _ H2) as (u' & E2 & ->). apply teq_mk.
+        destruct (record_projection o d (fa0 :: r0) false u ltac:(discriminate) Hnd E1) as (fs1 & -> & P1).
+        destruct (record_projection o d SS' false u' Hne' Hnd' E2) as (fs2 & -> & P2).
+        apply teq_struct.
+        -- intros k. specialize (P1 k). specialize (P2 k). pose proof (vals_perm k _ _ Hpl) as Hvp.
+           destruct (fget2 k fs1) as [[t1 l1]|], (fget2 k fs2) as [[t2 l2]|]; split; intros Hx; try discriminate; try reflexivity.
+           ++ destruct P1 as (Hne & _). rewrite P2 in Hvp. apply Permutation_sym, Permutation_nil in Hvp. contradiction.
+           ++ destruct P2 as (Hne & _). rewrite P1 in Hvp. apply Permutation_nil in Hvp. contradiction.
+        -- intros k t1 l1 t2 l2 G1 G2. specialize (P1 k). specialize (P2 k). rewrite G1 in P1. rewrite G2 in P2.
+           destruct P1 as (_ & T1 & R1 & ->). destruct P2 as (_ & T2 & R2 & ->).
+           rewrite (missing_perm k _ _ Hpl). apply teq_mk.
+           apply (IH _ (vals k (fa0 :: r0)) (vals k SS') T1 T2 (Hh k) (vals_perm k _ _ Hpl) R1 R2).
+      + (* records presented as maps with string keys *)
+        rewrite Hc in Hcp. destruct (Permutation_map_inv _ _ (Permutation_sym Hcp)) as (SS' & Hc' & Hpl).
+        assert (Hnd' : Forall (fun fa => NoDup (map fst fa)) SS') by (rewrite Forall_forall in *; intros fa Hin; apply Hnd, (Permutation_in _ (Permutation_sym Hpl) Hin)).
+        destruct SS as [|fa0 r0].
+        { destruct (cores_nil_atoms o vs Hc) as (l & Hl). apply (leaf_case d vs vs' l t t' Hl Hp H1 H2). }
+        assert (Hne' : SS' <> []) by (intros ->; apply Permutation_sym, Permutation_nil in Hpl; discriminate).
+        rewrite (strip0 d vs) in H1 by (rewrite Hc; first [apply containers_map; reflexivity|discriminate]).
+        rewrite (strip0 d vs') in H2 by (rewrite Hc'; first [apply containers_map; reflexivity|destruct SS'; [congruence|discriminate]]).
+        rewrite Hc in H1. rewrite Hc', <- Hnp in H2.
+        rewrite (maps_collection o d (fa0 :: r0) Hm ltac:(discriminate)) in H1. rewrite (maps_collection o d SS' Hm Hne') in H2.
+        destruct (omk_ok_inv _ _ _ H1) as (w & E1 & ->). destruct (omk_ok_inv _ _ _ H2) as (w' & E2 & ->). apply teq_mk.
+        destruct (trace_seq' o d (map VStruct (fa0 :: r0)) (Ok (TUnknown false))) as [u| |p] eqn:F1; try discriminate E1.
+        destruct (trace_seq' o d (map VStruct SS') (Ok (TUnknown false))) as [u'| |p] eqn:F2; try discriminate E2.
+        cbn [omode] in E1, E2. injection E1 as <-. injection E2 as <-.
+        destruct (record_projection o d (fa0 :: r0) false u ltac:(discriminate) Hnd F1) as (fs1 & -> & P1).
+        destruct (record_projection o d SS' false u' Hne' Hnd' F2) as (fs2 & -> & P2).
+        cbn [fmode]. apply teq_mstruct.
+        -- intros k. specialize (P1 k). specialize (P2 k). pose proof (vals_perm k _ _ Hpl) as Hvp.
+           destruct (fget2 k fs1) as [[t1 l1]|], (fget2 k fs2) as [[t2 l2]|]; split; intros Hx; try discriminate; try reflexivity.
+           ++ destruct P1 as (Hne & _). rewrite P2 in Hvp. apply Permutation_sym, Permutation_nil in Hvp. contradiction.
+           ++ destruct P2 as (Hne & _). rewrite P1 in Hvp. apply Permutation_nil in Hvp. contradiction.
+        -- intros k t1 l1 t2 l2 G1 G2. specialize (P1 k). specialize (P2 k). rewrite G1 in P1. rewrite G2 in P2.
+           destruct P1 as (_ & T1 & R1 & ->). destruct P2 as (_ & T2 & R2 & ->).
+           rewrite (missing_perm k _ _ Hpl). apply teq_mk.
+           apply (IH _ (vals k (fa0 :: r0)) (vals k SS') T1 T2 (Hh k) (vals_perm k _ _ Hpl) R1 R2).
   Qed.
 End Order.
